@@ -8,6 +8,7 @@ import (
 	"sort"
 	"strconv"
 	"strings"
+	"verif/harness/internal/via"
 
 	"github.com/emirpasic/gods/v2/maps/hashbidimap"
 	"github.com/emirpasic/gods/v2/maps/hashmap"
@@ -128,21 +129,21 @@ func (b *Box) Load(pairs [][2]int) error {
 	doc := LoadDoc(pairs, false)
 	switch {
 	case b.RBT != nil:
-		return b.RBT.FromJSON(doc)
+		return via.Auto(b.RBT, doc)
 	case b.AVL != nil:
-		return b.AVL.FromJSON(doc)
+		return via.Auto(b.AVL, doc)
 	case b.BT != nil:
-		return b.BT.FromJSON(doc)
+		return via.Auto(b.BT, doc)
 	case b.TreeMap != nil:
-		return b.TreeMap.FromJSON(doc)
+		return via.Auto(b.TreeMap, doc)
 	case b.HashMap != nil:
-		return b.HashMap.FromJSON(doc)
+		return via.Auto(b.HashMap, doc)
 	case b.Linked != nil:
-		return b.Linked.FromJSON(doc)
+		return via.Auto(b.Linked, doc)
 	case b.HashBidi != nil:
-		return b.HashBidi.FromJSON(doc)
+		return via.Auto(b.HashBidi, doc)
 	case b.TreeBidi != nil:
-		return b.TreeBidi.FromJSON(doc)
+		return via.Auto(b.TreeBidi, doc)
 	}
 	panic("kvh: Load on unknown kind")
 }
